@@ -368,6 +368,16 @@ def triggersOk (lists : List Str) (rows : List Cells) : Bool :=
                  | _ => false)
        | _ => false)
 
+mutual
+/-- `Section.validate` (section.py 75-82): a group or repeat without children is rejected -/
+def emptySec : Item → Bool
+  | .q _ => false
+  | .sec _ _ _ ks => ks.isEmpty || emptySecL ks
+def emptySecL : List Item → Bool
+  | [] => false
+  | k :: ks => emptySec k || emptySecL ks
+end
+
 /-! ## Specification -/
 namespace Spec
 
